@@ -604,7 +604,7 @@ def _in_orelse(ifnode: ast.If, node: ast.AST, mod: Any) -> bool:
 
 
 MUTANTS = [
-    {'id': 'parsed_name_shares_folded_string', 'file': 'keyvalues.py', 'find': "                keyvalue.real_name = sys.intern(token_value)\n", 'replace': "                keyvalue._real_name = keyvalue._folded_name if token_value.islower() else sys.intern(token_value)\n", 'expect': 'C01.R4'},
+    {'id': 'parsed_name_shares_folded_string', 'file': 'keyvalues.py', 'find': "                keyvalue.real_name = sys.intern(token_value)\n", 'replace': "                folded_name = sys.intern(token_value.casefold())\n                keyvalue._real_name = folded_name if token_value.islower() else sys.intern(token_value)\n", 'expect': 'C01.R4'},
     {'id': 'parse_prefilters_chunks', 'file': 'keyvalues.py', 'find': "            tokenizer = Tokenizer(\n                file_contents,", 'replace': "            if not isinstance(file_contents, (str, bytes)):\n                file_contents = (ln for ln in file_contents if not ln.startswith('//'))\n            tokenizer = Tokenizer(\n                file_contents,", 'expect': 'C01.R4'},
     {'id': 'value_newline_guard_loses_parentheses', 'file': 'keyvalues.py', 'find': "                    if not newline_values and ('\\n' in prop_value or '\\r' in prop_value):", 'replace': "                    if not newline_values and '\\n' in prop_value or '\\r' in prop_value:", 'expect': 'C01.R7'},
     {'id': 'pushback_list_class_level', 'file': 'tokenizer.py', 'find': "    _pushback: list[tuple[Token, str]]\n", 'replace': "    _pushback: list[tuple[Token, str]] = []\n", 'extra': [{'file': 'tokenizer.py', 'find': "        self._pushback = []\n        self.line_num = 1\n", 'replace': "        self.line_num = 1\n"}], 'expect': 'C01.R10'},
